@@ -193,6 +193,11 @@ def binop(rt, interp, op, a, b, node=None):
         if opn == "Pow" and isinstance(a, int) and isinstance(b, int):
             return a ** b
         if opn == "Div":
+            hook = rt.binop_hooks.get("Div")
+            if hook is not None:
+                res = hook(rt, interp, a, b)
+                if res is not MISSING:
+                    return res
             raise Undecided("true division on symbolic integers (float)")
         raise Undecided("integer operator %s on symbolic operands" % opn)
     if opn == "Add":
@@ -896,6 +901,8 @@ def native_getitem(rt, interp, c, idx):
 
 
 def native_getslice(rt, interp, c, lo, hi, step):
+    if isinstance(c, SBytes) and lo is None and hi is None and step is None:
+        return c
     hook = rt.getslice_hooks.get(type(c).__name__)
     if hook is not None:
         return hook(rt, interp, c, lo, hi, step)
@@ -1039,3 +1046,202 @@ def _zip_longest(interp, args, kwargs):
     fill = kwargs.get("fillvalue")
     n = max(len(x) for x in lists) if lists else 0
     return [tuple(x[i] if i < len(x) else fill for x in lists) for i in range(n)]
+
+
+# ============================================================================= floats (real relaxation), timedelta, ip
+
+class SReal(Sym):
+    """A double, over-approximated by a real number: every correctly rounded operation returns the exact
+    result plus an error bounded by half an ulp of the (proved) magnitude bound (DESIGN 7.17)."""
+    pytype = "float"
+
+
+def zreal(v):
+    if isinstance(v, SReal):
+        return v.e
+    if isinstance(v, float):
+        if v != v or v in (float("inf"), float("-inf")):
+            raise Undecided("non-finite float")
+        from fractions import Fraction
+        fr = Fraction(v)
+        return z3.RealVal("%d/%d" % (fr.numerator, fr.denominator))
+    if isinstance(v, (int, SInt, SBool, bool)):
+        return z3.ToReal(zint(v))
+    raise EngineError("not a number: %r" % (v,))
+
+
+def float_round(interp, exact):
+    """The double nearest to the real ``exact``: exact + err, |err| <= 2^(k-53) where 2^k bounds |exact|."""
+    rt = interp.rt
+    rt.theory.note("machine arithmetic treated as mathematical: IEEE-754 double operations are modelled by the sound real "
+                   "relaxation result = exact + err, |err| <= half an ulp of a proved magnitude bound")
+    for k in (0, 8, 16, 24, 26, 32, 40, 48, 53, 64):
+        if _prove(interp, z3.And(exact <= z3.RealVal(2) ** k, exact >= -(z3.RealVal(2) ** k))):
+            r = interp.ctx.fresh(z3.RealSort(), "fl")
+            bound = z3.Q(1, 2 ** (53 - k)) if k <= 53 else z3.RealVal(2 ** (k - 53))
+            interp.ctx.assume(lift_bool(z3.And(r - exact <= bound, exact - r <= bound)))
+            # rounding to nearest is monotone and every integer below 2^53 is a double:
+            # the result never crosses an integer (in particular it keeps the sign)
+            if k <= 53:
+                kf = interp.ctx.fresh(Int, "fl_floor")
+                interp.ctx.assume(lift_bool(z3.And(z3.ToReal(kf) <= exact, exact < z3.ToReal(kf) + 1,
+                                                   z3.ToReal(kf) <= r, r <= z3.ToReal(kf) + 1,
+                                                   z3.Implies(exact == z3.ToReal(kf), r == exact))))
+            return SReal(r)
+    raise Undecided("float operation on a value without a proved magnitude bound")
+
+
+def real_binop(rt, interp, opn, a, b):
+    x, y = zreal(a), zreal(b)
+    if opn == "Div":
+        if isinstance(b, (int, float)) and b == 0:
+            interp.raise_py("ZeroDivisionError")
+        if not isinstance(b, (int, float)):
+            raise Undecided("float division by a symbolic divisor")
+        return float_round(interp, x / y)
+    if opn == "Mult":
+        if isinstance(a, Sym) and isinstance(b, Sym):
+            raise Undecided("float product of two symbolic values")
+        return float_round(interp, x * y)
+    if opn == "Add":
+        return float_round(interp, x + y)
+    if opn == "Sub":
+        return float_round(interp, x - y)
+    raise Undecided("float operator %s" % opn)
+
+
+def real_floor(interp, r):
+    """floor of a real as a fresh integer."""
+    k = interp.ctx.fresh(Int, "floor")
+    interp.ctx.assume(lift_bool(z3.And(z3.ToReal(k) <= r, r < z3.ToReal(k) + 1)))
+    return k
+
+
+def install_numeric_models(rt, interp):
+    """timedelta / ip_address / int.to_bytes models (assumed contracts of the standard library)."""
+    td_cls = PyClass("timedelta", [], kind="builtin")
+    ip4_cls = PyClass("IPv4Address", [], kind="builtin")
+    rt.td_cls, rt.ip4_cls = td_cls, ip4_cls
+    rt.theory.note("datetime.timedelta: a whole number of microseconds; timedelta(seconds=<float>) follows CPython's "
+                   "delta_new/accum algorithm (modf, one multiplication by 1e6, round-half-even of the left-over)")
+    UNITS = {"days": 86400 * 10 ** 6, "seconds": 10 ** 6, "microseconds": 1, "milliseconds": 1000, "minutes": 60 * 10 ** 6,
+             "hours": 3600 * 10 ** 6, "weeks": 7 * 86400 * 10 ** 6}
+
+    def new_td(i, cls, args, kwargs):
+        names = ["days", "seconds", "microseconds", "milliseconds", "minutes", "hours", "weeks"]
+        kw = dict(zip(names, args))
+        kw.update(kwargs)
+        total = z3.IntVal(0)
+        for k, v in kw.items():
+            if k not in UNITS:
+                i.raise_py("TypeError", "unexpected keyword %r" % k)
+            if isinstance(v, (SReal, float)):
+                if k != "seconds":
+                    raise Undecided("float timedelta argument other than seconds")
+                s = zreal(v)
+                q = real_floor(i, s)                      # modf: integral part (s >= 0 assumed below)
+                if not _prove(i, s >= 0):
+                    raise Undecided("timedelta(seconds=<possibly negative float>)")
+                f = s - z3.ToReal(q)                      # exact
+                d = float_round(i, f * 10 ** 6).e         # one rounded multiplication
+                ip = real_floor(i, d)
+                fr = d - z3.ToReal(ip)
+                tie = i.ctx.fresh(Int, "half_even")
+                i.ctx.assume(lift_bool(z3.Or(tie == 0, tie == 1)))
+                whole = z3.If(fr > z3.Q(1, 2), 1, z3.If(fr < z3.Q(1, 2), 0, tie))
+                total = total + q * 10 ** 6 + ip + whole
+            else:
+                total = total + zint(v) * UNITS[k]
+        return Obj(td_cls, {"us": lift_int(total)})
+    rt.hooks["new:timedelta"] = new_td
+    rt.native_modules["datetime"]["timedelta"] = td_cls
+    rt.module_cache.pop("datetime", None)
+
+    def td_binop(rt_, i, a, b):
+        return MISSING
+    for opn in ("FloorDiv", "Div", "Mult", "Add", "Sub"):
+        def mk(opn):
+            def hook(rt_, i, a, b):
+                ta = isinstance(a, Obj) and a.cls is td_cls
+                tb = isinstance(b, Obj) and b.cls is td_cls
+                if ta and tb and opn == "FloorDiv":
+                    ub = b.fields["us"]
+                    if not isinstance(ub, int) or ub <= 0:
+                        raise Undecided("timedelta // non-positive or symbolic timedelta")
+                    return lift_int(zint(a.fields["us"]) / ub)
+                if ta and tb and opn in ("Add", "Sub"):
+                    return Obj(td_cls, {"us": binop(rt_, i, ast.Add() if opn == "Add" else ast.Sub(), a.fields["us"], b.fields["us"])})
+                if isinstance(a, (SReal, float)) or isinstance(b, (SReal, float)):
+                    if isinstance(a, (SReal, float, int, SInt)) and isinstance(b, (SReal, float, int, SInt)):
+                        return real_binop(rt_, i, opn, a, b)
+                if opn == "Div" and _is_intlike(a) and _is_intlike(b):
+                    return real_binop(rt_, i, opn, a, b)
+                return MISSING
+            return hook
+        rt.binop_hooks[opn] = mk(opn)
+
+    def td_attr(i, obj, name):
+        if name == "total_seconds":
+            return Builtin("total_seconds", lambda i2, a, k: float_round(i2, z3.ToReal(zint(obj.fields["us"])) / 10 ** 6))
+        return NotImplemented
+    td_cls.native_attrs["total_seconds"] = Builtin("timedelta.total_seconds",
+                                                   lambda i, a, k: float_round(i, z3.ToReal(zint(a[0].fields["us"])) / 10 ** 6))
+    rt.int_hooks["SReal"] = lambda rt_, i, v: _trunc(i, v)
+    rt.eq_hooks["SReal"] = lambda rt_, i, a, b: lift_bool(a.e == zreal(b))
+
+    # ---- ipaddress
+    rt.theory.note("ipaddress.ip_address(int) for 0 <= int < 2^32 is the IPv4Address with that number; int(IPv4Address) "
+                   "is the number; int.to_bytes / int.from_bytes with equal length and byte order are inverse on "
+                   "0 <= x < 256^n (assumed contracts of the standard library)")
+    rt.f_tobytes = z3.Function("int_to_bytes", Int, Int, Bool, Bytes)
+    rt.f_frombytes = z3.Function("int_from_bytes", Bytes, Bool, Bool, Int)
+    def bytes_axiom():
+        xx, nn, bb = z3.Int("xx"), z3.Int("nn"), z3.Bool("bb")
+        rt.theory.add_once("to/from-bytes", lambda: z3.ForAll([xx, nn, bb], z3.Implies(
+            z3.And(xx >= 0, nn >= 0), z3.And(rt.f_frombytes(rt.f_tobytes(xx, nn, bb), bb, False) == xx,
+                                             rt.f_blen(rt.f_tobytes(xx, nn, bb)) == nn))))
+
+    def to_bytes(i, v, a, k):
+        bytes_axiom()
+        n = a[0] if a else k.get("length", 1)
+        order_ = a[1] if len(a) > 1 else k.get("byteorder", "big")
+        if not isinstance(n, int):
+            raise Undecided("to_bytes with symbolic length")
+        x = zint(v)
+        if not _prove(i, z3.And(x >= 0, x < 256 ** n)):
+            if i.ctx.branch(lift_bool(z3.Or(x < 0, x >= 256 ** n))):
+                i.raise_py("OverflowError", "int too big to convert")
+        return SBytes(rt.f_tobytes(x, z3.IntVal(n), z3.BoolVal(order_ == "big")))
+    rt.hooks["int.to_bytes"] = to_bytes
+
+    def from_bytes(i, data, order_, signed):
+        bytes_axiom()
+        return SInt(rt.f_frombytes(rt.to_bytes_expr(data), z3.BoolVal(order_ == "big"), z3.BoolVal(bool(signed))))
+    rt.hooks["int.from_bytes"] = from_bytes
+
+    def ip_address(i, fn, args, kwargs):
+        v = args[0]
+        if _is_intlike(v):
+            x = zint(v)
+            if i.ctx.branch(lift_bool(z3.And(x >= 0, x < 2 ** 32))):
+                return Obj(ip4_cls, {"n": v})
+            raise Undecided("ip_address() of a number outside the IPv4 range (IPv6 / ValueError)")
+        from .objects import Opaque
+        return Opaque("ip(%r)" % (v,))
+    rt.ip_address_model = ip_address
+    rt.native_modules["ipaddress"]["ip_address"] = Builtin("ip_address", lambda i, a, k: ip_address(i, None, a, k))
+    rt.native_modules["ipaddress"]["IPv4Address"] = ip4_cls
+    rt.module_cache.pop("ipaddress", None)
+    rt.int_hooks["Obj"] = None
+    ip4_cls.native_attrs["__int__"] = Builtin("IPv4Address.__int__", lambda i, a, k: a[0].fields["n"])
+    ip4_cls.native_attrs["__eq__"] = Builtin("IPv4Address.__eq__", lambda i, a, k: (
+        isinstance(a[1], Obj) and a[1].cls is ip4_cls and i.eq(a[0].fields["n"], a[1].fields["n"])))
+    td_cls.native_attrs["__eq__"] = Builtin("timedelta.__eq__", lambda i, a, k: (
+        isinstance(a[1], Obj) and a[1].cls is td_cls and i.eq(a[0].fields["us"], a[1].fields["us"])))
+
+
+def _trunc(interp, v):
+    """int(<float>) : truncation toward zero (non-negative values only)."""
+    if not _prove(interp, v.e >= 0):
+        raise Undecided("int() of a possibly negative float")
+    return lift_int(real_floor(interp, v.e))
